@@ -33,7 +33,7 @@ CHECKS = {
                                        traces_validated_against_impl=cn.get('C20/ref:words', 0) + cn.get('C20/asan:words', 0),
                                        explanation='states = abstract typestates {none, h0, h1, both live} per configuration; every word (trace) is executed call by call on the real bridge')),
     'C09': dict(level='model_checking', runs=[dict(binary='h_thr', check='C09sched', variant='mon'), dict(binary='h_thr', check='C09seq', variant='ref'), dict(binary='h_thr', check='C09tsan', variant='tsan')],
-                percase=120, deadline=dict(quick=200, thorough=1800),
+                percase=dict(quick=120, thorough=2400), deadline=dict(quick=200, thorough=3000),
                 mc_cov=lambda cn: dict(states=cn.get('C09sched/mon:scheduling_points', 0), transitions=cn.get('C09sched/mon:scheduling_points', 0), traces_validated_against_impl=cn.get('C09sched/mon:schedules', 0) + cn.get('C09seq/ref:sequences', 0),
                                        explanation='schedules = complete interleavings executed on the real code under the cooperative scheduler (iterative preemption bounding, depth-first with prefix replay); states/transitions = scheduling points visited over all schedules; sequences = sequential call histories of part 3')),
     'C07': dict(level='fault_enumeration', runs=_e1('C07', 'h_e2'), percase=5, deadline=dict(quick=150, thorough=1500)),
